@@ -184,6 +184,7 @@ class Ref:
                 elif name.startswith("hcancel:"):
                     self._cancel(name[8:], i, it, "env handle.cancel")
         self.possible = getattr(self, "possible", {})
+        self._members_ended_cancelled(spawned_into)
         # a child started with start() that ends with an error after its starter was cancelled:
         # the error goes to the group, which is therefore cancelled like for any failing child
         te_of = {e[3]: (i, e[4]) for i, e in enumerate(log) if e[2] == "te"}
@@ -213,6 +214,41 @@ class Ref:
                     # the timer callback ran before this event was logged
                     sc.cancel_lo = max(sc.enter, i - 1)
                     break
+
+    def _members_ended_cancelled(self, spawned_into):
+        """A member whose *task* ends with a cancellation while the group's own scope is not
+        effectively cancelled counts as a failed child: the group cancels itself (without
+        recording an exception).  That happens when the cancellation came from an enclosing
+        scope and the group's scope has become shielded by the time the member's done-callback
+        runs.  The callback runs within an iteration after the task's end; the shield state is
+        evaluated over that window."""
+        log = self.log
+        for i, ev in enumerate(log):
+            if ev[2] != "te" or ev[4][0] != "cancel":
+                continue
+            t = ev[3]
+            g, via = spawned_into.get(t, (None, None))
+            gs = self.by_name.get(g) if g is not None else None
+            if gs is None or (gs.exit is not None and gs.exit < i):
+                continue
+            hs = self.scopes.get("h:" + t)
+            if hs is not None and hs.cancel_lo is not None and hs.cancel_lo <= i:
+                continue  # cancelled through its handle: absorbed by the handle's own scope
+            it = ev[0]
+            win = [j for j in range(i, len(log)) if log[j][0] <= it + 1]
+            cert = poss = 0
+            for j in win:
+                own = gs.cancel_lo is not None and gs.cancel_lo <= j
+                c, p_ = visible_parent_cancel(self, gs, j)
+                cert += 1 if (own or c) else 0
+                poss += 1 if (own or p_) else 0
+            if cert == len(win):
+                continue
+            if poss == 0:
+                self._cancel(g, i, it + 2, f"child {t} ended cancelled while the group's scope "
+                                           f"was not effectively cancelled")
+            else:
+                self._cancel_possible(g, i)
 
     def _cancel_possible(self, g, i):
         self.possible = getattr(self, "possible", {})
